@@ -164,7 +164,9 @@ pub fn error_variant(e: &rrss::exec::RuntimeError) -> String {
     }
     // keep enum-looking identifiers only
     parts.retain(|p| p.chars().next().map_or(false, |c| c.is_uppercase()));
-    parts.truncate(3);
+    // RuntimeError variant, its inner variant, and one more level only for symbol-table errors
+    let depth = if parts.get(1).map(|s| s.as_str()) == Some("SymTableError") { 3 } else { 2 };
+    parts.truncate(depth);
     parts.join("::")
 }
 
